@@ -8,15 +8,17 @@ Proved, for all inputs:
 * `decode_encode`        the codec is the identity on every meta tree that can be saved (dicts, lists,
                          tuples, sets, strings, numbers, booleans, None, NaN, ±inf, any nesting);
                          `savable`, `strings_untouched`.
-* `read_write`           for every heap `h`, dataset `d` and level `ℓ` with `Writable h d ℓ` (a decidable
+* `read_write`           for every heap `h`, dataset `d` and level `ℓ` with `WritableS h d ℓ` (a decidable
                          predicate, `Model/H5Dataset.lean`; the driver evaluates it on every generated
-                         dataset): `writeDS` succeeds and `readBack` of the file is
-                         `restrict d ℓ` — same `num_obs`, same fields in the same order with the same names,
+                         dataset; since the `fix:` 3c88b93 it no longer asks for pairwise different array
+                         objects: one array may be held by several fields): `writeDS` succeeds and `readBack` of the
+                         file is `restrict d ℓ` — same `num_obs`, same fields in the same order with the same names,
                          types, units, write levels, declared lengths and nested collections at any depth —
                          over a heap in which the array objects are renumbered by a map `φ` that is injective
                          on the reachable objects and maps each of them to an object of the same kind, shape
                          and rows whose `other` / `ref_pos` is the image of the old one (`Obj.rename φ`).
                          The renumbering is the model's `id()`: object numbers are allocation order.
+* `field_sharing_restored`  two fields (any paths) hold one array object after the read iff they did before.
 * `refs_restored`        field `p`'s attached object *is* field `q` after the read iff it was before (any
                          two paths: earlier / later field, field in a collection at any depth);
   `sharing_restored`     two fields share one attached object after the read iff they did before (an
@@ -28,8 +30,9 @@ Proved, for all inputs:
                          collection around it has write level ≥ ℓ (at every nesting depth);
   `level_filter(_nested)`, `restricted_fields_have_level`: the file side of the same fact.
 * `array_bit_identical`, `units_identical`: the per-array / per-attribute parts (kept from before).
-Not covered by `Writable` (so outside the theorem): one array object held by two *fields* (written twice,
-read back as two objects), attachments of the plain classes, cyclic references, a delta without `ref_pos`.
+Not covered by `WritableS` (so outside the theorems): attachments of the plain classes, cyclic references, a delta
+without `ref_pos`, the user-registered `time` attribute.  (`Writable` is `WritableS` plus "pairwise different array
+objects": the hypothesis of the theorems before the generalisation; kept for the coverage counts.)
 -/
 import Midgard.Proofs.H5Attr
 import Midgard.Proofs.H5Dataset
@@ -37,6 +40,7 @@ import Midgard.Proofs.H5Refs
 import Midgard.Proofs.H5Meta
 import Midgard.Proofs.H5Bits
 import Midgard.Proofs.H5Alias
+import Midgard.Proofs.H5R2Fields
 
 namespace Midgard.Props.C10
 open Midgard.H5Attr Midgard.H5 Midgard.Dataset
@@ -104,30 +108,30 @@ code): the write succeeds; the read gives the declared number of observations an
 replaced by `φ o`; every object reachable from these fields (through `other` / `ref_pos`, to any depth)
 is mapped to an object with the same kind, shape and rows whose reference is the image of the old one;
 `φ` is injective on the reachable objects (no two objects are merged, no object is duplicated). -/
-theorem read_write (h : Heap) (d : DS) (lvl : Nat) (hw : Writable h d lvl) :
+theorem read_write (h : Heap) (d : DS) (lvl : Nat) (hw : WritableS h d lvl) :
     ∃ (file : File) (h' : Heap) (φ : Nat → Nat), writeDS h d lvl = .ok file ∧
       readBack h d file = .ok (h', { numObs := d.numObs, fields := renameFields φ (restrictFields lvl d.fields) }) ∧
       (∀ x, Reach h (restrictFields lvl d.fields) x → ∃ ob, h[x]? = some ob ∧ h'[φ x]? = some (ob.rename φ)) ∧
       (∀ x y, Reach h (restrictFields lvl d.fields) x → Reach h (restrictFields lvl d.fields) y → φ x = φ y → x = y) :=
-  roundTrip_core h d lvl hw
+  roundTrip_core2 h d lvl hw
 
 /-- **cross references**: for any two field paths `p`, `q` — the attached object (`other` / `ref_pos`) of
 field `p` *is* the array of field `q` after the read iff it was before.  `q` may be an earlier or a later
 field, or a field inside a collection at any depth. -/
-theorem refs_restored (h : Heap) (d : DS) (lvl : Nat) (hw : Writable h d lvl) :
+theorem refs_restored (h : Heap) (d : DS) (lvl : Nat) (hw : WritableS h d lvl) :
     ∃ (file : File) (h' : Heap) (d' : DS), writeDS h d lvl = .ok file ∧ readBack h d file = .ok (h', d') ∧
       ∀ p q : Path,
         (∃ o ob x, leafAt (restrictFields lvl d.fields) p = some o ∧ h[o]? = some ob ∧ ob.ref = some x ∧
           leafAt (restrictFields lvl d.fields) q = some x) ↔
         (∃ o' ob' x', leafAt d'.fields p = some o' ∧ h'[o']? = some ob' ∧ ob'.ref = some x' ∧
           leafAt d'.fields q = some x') := by
-  obtain ⟨file, h', φ, hwr, hrd, himg, hinj⟩ := roundTrip_core h d lvl hw
+  obtain ⟨file, h', φ, hwr, hrd, himg, hinj⟩ := roundTrip_core2 h d lvl hw
   exact ⟨file, h', _, hwr, hrd, fun p q => IsoOn.refs_paths ⟨himg, hinj⟩ p q⟩
 
 /-- **shared attachments**: two fields whose arrays each have an attached object share *one* object after
 the read iff they shared one before (an anonymous position attached to several fields stays one object;
 two equal-looking attachments stay two). -/
-theorem sharing_restored (h : Heap) (d : DS) (lvl : Nat) (hw : Writable h d lvl) :
+theorem sharing_restored (h : Heap) (d : DS) (lvl : Nat) (hw : WritableS h d lvl) :
     ∃ (file : File) (h' : Heap) (d' : DS), writeDS h d lvl = .ok file ∧ readBack h d file = .ok (h', d') ∧
       ∀ (p1 p2 : Path) (o1 o2 x1 x2 : Nat) (ob1 ob2 : Obj),
         leafAt (restrictFields lvl d.fields) p1 = some o1 → leafAt (restrictFields lvl d.fields) p2 = some o2 →
@@ -135,14 +139,14 @@ theorem sharing_restored (h : Heap) (d : DS) (lvl : Nat) (hw : Writable h d lvl)
         ∃ o1' o2' ob1' ob2' x1' x2', leafAt d'.fields p1 = some o1' ∧ leafAt d'.fields p2 = some o2' ∧
           h'[o1']? = some ob1' ∧ h'[o2']? = some ob2' ∧ ob1'.ref = some x1' ∧ ob2'.ref = some x2' ∧
           (x1' = x2' ↔ x1 = x2) := by
-  obtain ⟨file, h', φ, hwr, hrd, himg, hinj⟩ := roundTrip_core h d lvl hw
+  obtain ⟨file, h', φ, hwr, hrd, himg, hinj⟩ := roundTrip_core2 h d lvl hw
   exact ⟨file, h', _, hwr, hrd, fun p1 p2 _ _ _ _ _ _ a b c e f g => IsoOn.sharing ⟨himg, hinj⟩ p1 p2 a b c e f g⟩
 
 /-- **every reference topology, chains included**: for every object `z` reachable from the written fields
 (a field's array, its attachment, the attachment's attachment, …) that has a reference `y`: after the read
 the image of `z` refers to the image of `y`; an object is the array of the field at `q` after the read iff
 it was before (so an attachment that was no field is no field); different objects stay different. -/
-theorem refs_restored_chains (h : Heap) (d : DS) (lvl : Nat) (hw : Writable h d lvl) :
+theorem refs_restored_chains (h : Heap) (d : DS) (lvl : Nat) (hw : WritableS h d lvl) :
     ∃ (file : File) (h' : Heap) (φ : Nat → Nat), writeDS h d lvl = .ok file ∧
       readBack h d file = .ok (h', { numObs := d.numObs, fields := renameFields φ (restrictFields lvl d.fields) }) ∧
       (∀ z y ob, Reach h (restrictFields lvl d.fields) z → h[z]? = some ob → ob.ref = some y →
@@ -151,9 +155,45 @@ theorem refs_restored_chains (h : Heap) (d : DS) (lvl : Nat) (hw : Writable h d 
         (leafAt (renameFields φ (restrictFields lvl d.fields)) q = some (φ x) ↔
           leafAt (restrictFields lvl d.fields) q = some x)) ∧
       (∀ x y, Reach h (restrictFields lvl d.fields) x → Reach h (restrictFields lvl d.fields) y → φ x = φ y → x = y) := by
-  obtain ⟨file, h', φ, hwr, hrd, himg, hinj⟩ := roundTrip_core h d lvl hw
+  obtain ⟨file, h', φ, hwr, hrd, himg, hinj⟩ := roundTrip_core2 h d lvl hw
   have iso : IsoOn h h' (restrictFields lvl d.fields) φ := ⟨himg, hinj⟩
   exact ⟨file, h', φ, hwr, hrd, fun z y ob hz hob hr => iso.ref hz hob hr, fun x q hx => iso.fieldness hx q, hinj⟩
+
+/-- **arrays shared between fields**: for any two field paths `p`, `q` — the fields hold one array object after the read
+iff they held one before (an array added to the dataset under two names, in the same or in different collections, at any
+depth, is one object again; two equal-looking arrays stay two). -/
+theorem field_sharing_restored (h : Heap) (d : DS) (lvl : Nat) (hw : WritableS h d lvl) :
+    ∃ (file : File) (h' : Heap) (d' : DS), writeDS h d lvl = .ok file ∧ readBack h d file = .ok (h', d') ∧
+      ∀ p q : Path,
+        (∃ o, leafAt (restrictFields lvl d.fields) p = some o ∧ leafAt (restrictFields lvl d.fields) q = some o) ↔
+        (∃ o', leafAt d'.fields p = some o' ∧ leafAt d'.fields q = some o') := by
+  obtain ⟨file, h', φ, hwr, hrd, _, hinj⟩ := roundTrip_core2 h d lvl hw
+  refine ⟨file, h', _, hwr, hrd, fun p q => ?_⟩
+  show _ ↔ ∃ o', leafAt (renameFields φ (restrictFields lvl d.fields)) p = some o' ∧
+    leafAt (renameFields φ (restrictFields lvl d.fields)) q = some o'
+  rw [leafAt_rename, leafAt_rename]
+  constructor
+  · rintro ⟨o, hp, hq⟩
+    exact ⟨φ o, by rw [hp]; rfl, by rw [hq]; rfl⟩
+  · rintro ⟨o', hp, hq⟩
+    cases hlp : leafAt (restrictFields lvl d.fields) p with
+    | none => rw [hlp] at hp; cases hp
+    | some a =>
+      cases hlq : leafAt (restrictFields lvl d.fields) q with
+      | none => rw [hlq] at hq; cases hq
+      | some b =>
+        rw [hlp] at hp
+        rw [hlq] at hq
+        simp only [Option.map_some, Option.some.injEq] at hp hq
+        have : a = b := hinj a b (.field (leafAt_mem hlp)) (.field (leafAt_mem hlq)) (hp.trans hq.symm)
+        exact ⟨a, rfl, by rw [this]⟩
+
+/-- `Writable` (the hypothesis before the generalisation: additionally pairwise different array objects) implies
+`WritableS` -/
+theorem writable_imp_writableS (h : Heap) (d : DS) (lvl : Nat) (hw : Writable h d lvl) : WritableS h d lvl := by
+  simp only [Writable, writableB, Bool.and_eq_true] at hw
+  simp only [WritableS, writableSB, Bool.and_eq_true]
+  exact hw.1
 
 /-- "Fields below the requested write level, and only those, are omitted", on `restrict`, at every nesting
 depth: `restrict d ℓ` has a field at `path` iff `d` has one there and that field and every collection
@@ -163,10 +203,10 @@ theorem restrict_omits_iff_below_level (lvl : Nat) (fs : List Field) (hn : names
   findField_restrict lvl p fs hn
 
 /-- the same on the dataset read back from the file -/
-theorem omitted_iff_below_level (h : Heap) (d : DS) (lvl : Nat) (hw : Writable h d lvl) (hn : namesOK d.fields = true) :
+theorem omitted_iff_below_level (h : Heap) (d : DS) (lvl : Nat) (hw : WritableS h d lvl) (hn : namesOK d.fields = true) :
     ∃ (file : File) (h' : Heap) (d' : DS), writeDS h d lvl = .ok file ∧ readBack h d file = .ok (h', d') ∧
       ∀ p : Path, (findField d'.fields p).isSome = visible lvl d.fields p := by
-  obtain ⟨file, h', φ, hwr, hrd, _, _⟩ := roundTrip_core h d lvl hw
+  obtain ⟨file, h', φ, hwr, hrd, _, _⟩ := roundTrip_core2 h d lvl hw
   refine ⟨file, h', _, hwr, hrd, fun p => ?_⟩
   show (findField (renameFields φ (restrictFields lvl d.fields)) p).isSome = _
   rw [findField_rename_isSome, findField_restrict lvl p d.fields hn]
@@ -227,8 +267,8 @@ example : Reach exHeap (restrictFields 2 exDS.fields) 4 ∧ Reach exHeap (restri
   have h5 : Reach exHeap (restrictFields 2 exDS.fields) 5 := .ref (ob := exHeap[6]) h6 rfl rfl
   refine ⟨.ref (ob := exHeap[5]) h5 rfl rfl, h5, ?_, ?_⟩ <;> rw [exRestrict] <;> rfl
 
-/-- a dataset in which two fields hold one array object is not `Writable` (since the `fix:` the file holds the array once
-and the other field's group names that field; `read_write` does not cover it yet: `alias_*` below) -/
+/-- a dataset in which two fields hold one array object is not `Writable` — but it is `WritableS`, the hypothesis of the
+theorems (the file holds the array once, the other field's group names that field) -/
 example : ¬ Writable exHeap { numObs := 2, fields := [.leaf "a" .position 2 2 none 3, .leaf "a2" .position 2 2 none 3] } 2 := by
   simp [Writable, writableB, restrictFields, Midgard.H5.Field.level, leafObjs, nodupB]
 
@@ -238,12 +278,12 @@ example : ¬ Writable exHeap { numObs := 2, fields := [.leaf "a" .position 2 2 n
 reachable from the written fields whose rows are given as 64-bit patterns (`bitsRows ws`, the IEEE-754 words of its
 doubles), the object read back has exactly these words (`rowsBits`), row by row, column by column.  The word cells are
 what the correspondence sends for every numeric array (driver mode `rtbits`). -/
-theorem bits_identical (h : Heap) (d : DS) (lvl : Nat) (hw : Writable h d lvl) :
+theorem bits_identical (h : Heap) (d : DS) (lvl : Nat) (hw : WritableS h d lvl) :
     ∃ (file : File) (h' : Heap) (φ : Nat → Nat), writeDS h d lvl = .ok file ∧
       readBack h d file = .ok (h', { numObs := d.numObs, fields := renameFields φ (restrictFields lvl d.fields) }) ∧
       ∀ (x : Nat) (ob : Obj) (ws : List (List UInt64)), Reach h (restrictFields lvl d.fields) x → h[x]? = some ob →
         ob.rows = bitsRows ws → ∃ ob', h'[φ x]? = some ob' ∧ rowsBits ob'.rows = ws.map some := by
-  obtain ⟨file, h', φ, hwr, hrd, himg, _⟩ := roundTrip_core h d lvl hw
+  obtain ⟨file, h', φ, hwr, hrd, himg, _⟩ := roundTrip_core2 h d lvl hw
   refine ⟨file, h', φ, hwr, hrd, fun x ob ws hx hob hrows => ?_⟩
   obtain ⟨ob0, h0, h1⟩ := himg x hx
   rw [hob] at h0
@@ -282,7 +322,7 @@ theorem meta_written (m : MetaDict) :
 
 /-- **`read (write d ℓ) = restrict d ℓ` for the whole dataset**: fields as in `read_write`, and the meta information
 and the `vars` come back as they were -/
-theorem read_write_full (h : Heap) (d : DSM) (lvl : Nat) (hw : Writable h d.ds lvl) (hm : metaOK d.info = true) :
+theorem read_write_full (h : Heap) (d : DSM) (lvl : Nat) (hw : WritableS h d.ds lvl) (hm : metaOK d.info = true) :
     ∃ (fm : FileM) (h' : Heap) (φ : Nat → Nat), writeDSM h d lvl = .ok (some fm) ∧
       readBackM h d fm = .ok (h', { ds := { numObs := d.ds.numObs, fields := renameFields φ (restrictFields lvl d.ds.fields) },
                                     info := d.info, vars := d.vars }) ∧
@@ -381,6 +421,21 @@ def exAliasHeap : Heap :=
 def exAliasDS : DS := { numObs := 2, fields := [ .leaf "a" .position 0 2 none 3, .coll "g" 2 3 [ .leaf "b" .position 0 2 none 3 ],
   .leaf "c" .position 1 2 none 3 ] }
 
+/-- the hypothesis `WritableS` holds for the dataset of the former finding (fields `a` and `g.b` hold one array), which
+is not `Writable` -/
+example : WritableS exAliasHeap exAliasDS 1 ∧ ¬ Writable exAliasHeap exAliasDS 1 := by
+  have h1 : heapOK exAliasHeap = true := by decide +kernel
+  constructor
+  · simp only [WritableS, writableSB, h1, Bool.true_and]
+    simp [exAliasDS, restrictFields, Midgard.H5.Field.level, fieldsOK, namesOK, unitOK, objLen,
+      exAliasHeap, Midgard.Dataset.names, Field.name]
+  · simp [Writable, writableB, exAliasDS, restrictFields, Midgard.H5.Field.level, leafObjs, nodupB]
+
+/-- the left-hand side of `field_sharing_restored` is inhabited -/
+example : ∃ o, leafAt (restrictFields 1 exAliasDS.fields) ["a"] = some o ∧
+    leafAt (restrictFields 1 exAliasDS.fields) ["g", "b"] = some o := by
+  refine ⟨0, ?_, ?_⟩ <;> simp [exAliasDS, restrictFields, Midgard.H5.Field.level, leafAt, findField, getField, Field.name]
+
 /-- the dataset of the former finding (fields `a` and `g.b` hold one array, `c.other` is that array), written at level 1
 and read back: `a` and `g.b` are one object again and `c.other` is that object -/
 theorem alias_example :
@@ -423,3 +478,6 @@ end Midgard.Props.C10
 #print axioms Midgard.Props.C10.read_write_full
 #print axioms Midgard.Props.C10.bits_identical
 #print axioms Midgard.Props.C10.shared_array_written_once
+
+#print axioms Midgard.Props.C10.field_sharing_restored
+#print axioms Midgard.Props.C10.writable_imp_writableS
